@@ -180,7 +180,7 @@ impl<'a> LiveEvents<'a> {
             inject: Vec::with_capacity(2),
             anchors: Vec::with_capacity(8),
             rec_stack: Vec::with_capacity(2),
-            budget: budget.map(|budget| BudgetEnforcer::new(budget, policy)),
+            budget: budget.map(|budget| BudgetEnforcer::new(budget, policy).aliases_are_expanded()),
 
             budget_report,
             budget_report_cb,
@@ -227,7 +227,9 @@ impl<'a> LiveEvents<'a> {
             inject: Vec::with_capacity(2),
             anchors: Vec::with_capacity(8),
             rec_stack: Vec::with_capacity(2),
-            budget: budget.map(|budget| BudgetEnforcer::new(budget, EnforcingPolicy::AllContent)),
+            budget: budget.map(|budget| {
+                BudgetEnforcer::new(budget, EnforcingPolicy::AllContent).aliases_are_expanded()
+            }),
 
             budget_report,
             budget_report_cb,
